@@ -1,2 +1,2 @@
-import IstioModel.C16.JoinDriver
-def main (_ : List String) : IO Unit := IstioModel.Wire.run ({} : IstioModel.C16.AllState) IstioModel.C16.stepAll
+import IstioModel.C16.MemDriver
+def main (_ : List String) : IO Unit := IstioModel.Wire.run ({} : IstioModel.C16.TopState) IstioModel.C16.stepTop
